@@ -370,7 +370,7 @@ def tensor_setitem(interp, base, key, value):
                 return z3.And(*t)
 
             def p(idx, _ax=ax, _lo=lo_t, _st=step):
-                d = idx[_ax] - _lo
+                d = idx[_ax] if (z3.is_int_value(_lo) and _lo.as_long() == 0) else idx[_ax] - _lo
                 return d / _st if (V.is_z3(_st) or _st != 1) else d
 
             conds.append(c)
@@ -787,7 +787,7 @@ def install(reg):
         # torch raises RuntimeError for an out-of-range index: call-site obligation
         interp.ctx.prove("call torch.gather: index in [0, size)",
                          z3.ForAll([b_, l_], z3.Implies(z3.And(b_ >= 0, b_ < lift(index.shape[0]), l_ >= 0, l_ < lift(index.shape[1])), z3.And(v >= 0, v < n))),
-                         kind="call-pre")
+                         kind="call-pre", assume_after=False)
         r = Tensor(index.shape, lambda bi, li: inp.fn(bi, lift(index.fn(bi, li))), inp.kind)
         if isinstance(index, Tensor) and index.un is not None and index.un[1] == 1:
             u, ax, m = index.un
@@ -802,7 +802,7 @@ def install(reg):
         if mode != "constant" or value not in (None, 0, 0.0) or len(pad) != 2:
             raise OutOfSubset("F.pad other than constant zero padding of the last axis")
         lo, hi = pad
-        interp.ctx.prove("call F.pad: pad >= 0", z3.And(lift(S(lo)) >= 0, lift(S(hi)) >= 0), kind="call-pre")
+        interp.ctx.prove("call F.pad: pad >= 0", z3.And(lift(S(lo)) >= 0, lift(S(hi)) >= 0), kind="call-pre", assume_after=False)
         n = x.shape[-1]
         src = x
 
